@@ -20,6 +20,9 @@ def main():
         tier = sys.argv[2] if len(sys.argv) > 2 else os.environ.get("VERIF_TIER", "quick")
     mod = importlib.import_module("rules.props.%s" % prop.lower())
     chk = report.Check(prop, tier)
+    # rule-based checks enumerate their obligations (impls, fields, sites, configurations) completely; checks with a
+    # witness / declaration corpus sample an infinite program space and say so
+    chk.exhaustive = getattr(mod, "EXHAUSTIVE", True)
     try:
         mod.run(chk, tier)
     except facts.EngineError as e:
